@@ -87,11 +87,36 @@ for tgt, (alias, lit, prop_fns, method_fn) in CFG.items():
                         f"gi < len(our_type.properties) and 0 <= gj and gj < len(our_type.methods), "
                         f"{alias}.{prop_fns[0]}(our_type.properties[gi].name) != "
                         f"{alias}.{method_fn}(our_type.methods[gj].name))"))
+    if tgt == "golang":
+        # the Go names keep abbreviations in upper case (some_URL / some_url differ), the JSON and XML names do not:
+        # a third loop checks the names by which the properties are (de)serialised
+        ser = lambda fn, k: f"naming.{fn}(our_type.properties[{k}].name)"  # noqa: E731
+        n += 1
+        loops[n] = Loop(
+            invariants=[
+                ("json-recorded", f"forall(0, _i, lambda k: {ser('json_property', 'k')} in observed_json_names)"),
+                ("xml-recorded", f"forall(0, _i, lambda k: {ser('xml_property', 'k')} in observed_xml_names)"),
+                ("json-distinct-while-no-error",
+                 f"implies(len(errors) == 0 and 0 <= gi and gi < gj and gj < _i, "
+                 f"{ser('json_property', 'gi')} != {ser('json_property', 'gj')})"),
+                ("xml-distinct-while-no-error",
+                 f"implies(len(errors) == 0 and 0 <= gi and gi < gj and gj < _i, "
+                 f"{ser('xml_property', 'gi')} != {ser('xml_property', 'gj')})"),
+            ],
+            body_ensures=[("every-serialised-name-reported-or-recorded",
+                           "appended_count(errors) + dict_writes(observed_json_names) + "
+                           "dict_writes(observed_xml_names) == 2")],
+            body_twins=[("nothing-happens", "appended_count(errors) + dict_writes(observed_json_names) + "
+                                            "dict_writes(observed_xml_names) == 0")])
+        for fn in ("json_property", "xml_property"):
+            ensures.append((f"no-error-means-distinct-{fn.split('_')[0]}-names",
+                            f"implies(is_kind(our_type, intermediate.Class) and result is None and 0 <= gi and gi < gj "
+                            f"and gj < len(our_type.properties), {ser(fn, 'gi')} != {ser(fn, 'gj')})"))
     UNITS.append(Contract(
         f"{mod}:_verify_intra_structure_collisions", ["C21"], name=f"{tgt}._verify_intra_structure_collisions",
         ghost={"gi": "int", "gj": "int"}, loops=loops, ensures=ensures,
         twins=[("never-reports", "result is None")],
-        pure=[f"aas_core_codegen.{tgt}.naming:"], use_as_callee=False,
+        pure=[f"aas_core_codegen.{tgt}.naming:", "aas_core_codegen.naming:"], use_as_callee=False,
         replay=f"native.c21:replay_intra"))
 
 # collisions *between* types: which names a target compares is checked on examples (the loops are under contract below)
@@ -113,6 +138,16 @@ UNITS.append(Native(
           "output has no object key, 'required' entry, top-level XSD type / group / element or content-model element "
           "twice, and schema.json is a valid draft 2019-09 schema (judged on the output, not with the generators' "
           "naming functions).  Constants and functions are not covered", args={}, timeout_s=900))
+
+UNITS.append(Native(
+    "constants, verification functions and accessor names in the SDK targets", ["C21"], "native.c21members:bounded",
+    kind="examples",
+    bound="5 meta-models (two constants / two verification functions whose names differ in the letter case of a part or "
+          "in an underscore; a property foo with an implementation-specific method get_foo / set_foo) x the 6 SDK "
+          "targets; snippets for implementation-specific parts are created on demand from the keys reported as missing. "
+          "If the naming function that the target's generator applies maps both names to one identifier, the run must "
+          "report a clash (a run that fails for another reason is recorded as inconclusive, not as a failure)",
+    args={}, timeout_s=900))
 
 # ---- collisions *between* types: the six ``_verify_structure_name_collisions``.  Proved per iteration (body lemmas):
 # every generated structure name is either reported as colliding or recorded -- none is dropped; every error of the
